@@ -85,12 +85,16 @@ Inductive stmt :=
 | SDestroy (e : expr).
 
 Record fdecl := mkFn { fn_name : string; fn_params : list (ty * string); fn_ret : ty; fn_body : list stmt }.
-Record field := mkField { fd_static : bool; fd_final : bool; fd_ty : ty; fd_name : string; fd_init : option expr }.
-Record ctor := mkCtor { ct_params : list (ty * string); ct_super : option (list expr); ct_body : list stmt; ct_default : bool }.
+Inductive vis := VPub | VProt | VPriv.
+Inductive ckind := KNormal | KAbstract | KStatic.
+Record field := mkField { fd_static : bool; fd_final : bool; fd_ty : ty; fd_name : string; fd_init : option expr; fd_vis : vis }.
+Record ctor := mkCtor { ct_params : list (ty * string); ct_super : option (list expr); ct_body : list stmt; ct_default : bool;
+                        ct_vis : vis }.
 Record meth := mkMeth { md_name : string; md_params : list (ty * string); md_ret : ty; md_body : list stmt;
-                        md_static : bool; md_virtual : bool }.       (* md_virtual: declared virtual or override *)
+                        md_static : bool; md_virtual : bool;        (* md_virtual: declared virtual or override *)
+                        md_vis : vis }.
 Record cdecl := mkClass { cd_name : string; cd_base : option string; cd_fields : list field; cd_ctors : list ctor;
-                          cd_meths : list meth; cd_dtor : option (list stmt) }.
+                          cd_meths : list meth; cd_dtor : option (list stmt); cd_kind : ckind }.
 Record program := mkProg { p_classes : list cdecl; p_fns : list fdecl }.
 
 (* runtime errors the documentation names *)
